@@ -360,28 +360,19 @@ func httpHandlerRule(c *Ctx, r *Rule, fn *ssa.Function, dispatchMethod string) {
 		r.Fail(key+":shape", fn.Pos(), "handler must call readBody and proto.Unmarshal")
 		return
 	}
-	readOK := func(b *ssa.BasicBlock) bool {
-		for _, cd := range condsFor(b) {
-			cd = normCond(cd)
-			if bo := asBinOp(cd.V, token.NEQ, token.EQL); bo != nil {
-				if ex, ok := bo.X.(*ssa.Extract); ok && ex.Tuple == rb && ex.Index == 1 {
-					if z, isC := constInt(bo.Y); isC && z == 0 {
-						return (bo.Op == token.NEQ && !cd.Sense) || (bo.Op == token.EQL && cd.Sense)
-					}
-				}
-			}
-		}
-		return false
+	isRbCode := func(v ssa.Value) bool {
+		ex, ok := v.(*ssa.Extract)
+		return ok && ex.Tuple == rb && ex.Index == 1
 	}
-	unmarshalOK := func(b *ssa.BasicBlock) bool {
-		for _, cd := range condsFor(b) {
-			cd = normCond(cd)
-			if bo := asBinOp(cd.V, token.NEQ, token.EQL); bo != nil && bo.X == ssa.Value(um) && isNilConst(bo.Y) {
-				return (bo.Op == token.NEQ && !cd.Sense) || (bo.Op == token.EQL && cd.Sense)
-			}
-		}
-		return false
+	isZero := func(v ssa.Value) bool { z, isC := constInt(v); return isC && z == 0 }
+	readOKFacts := func(facts []canonCond) bool { return cmpHolds(facts, isRbCode, isZero, token.EQL) }
+	readFailedFacts := func(facts []canonCond) bool { return cmpHolds(facts, isRbCode, isZero, token.NEQ) }
+	umOKFacts := func(facts []canonCond) bool {
+		return cmpHolds(facts, func(v ssa.Value) bool { return v == ssa.Value(um) }, isNilConst, token.EQL)
 	}
+	// (directly, or through a status code / flag carried out of a helper that was written back in place)
+	readOK := func(b *ssa.BasicBlock) bool { return holdsAtOrViaFlag(b, readOKFacts) }
+	unmarshalOK := func(b *ssa.BasicBlock) bool { return holdsAtOrViaFlag(b, umOKFacts) }
 	r.Check(key+":unmarshal-after-read-ok", readOK(um.Block()), um.Pos(), "proto.Unmarshal runs only when readBody reported no error")
 	r.Check(key+":unmarshal-input", func() bool {
 		ex, ok := um.Call.Args[0].(*ssa.Extract)
@@ -410,9 +401,31 @@ func httpHandlerRule(c *Ctx, r *Rule, fn *ssa.Function, dispatchMethod string) {
 			} else {
 				r.Check(key+":error-status", n >= 400, cl.Pos(), fmt.Sprintf("status %d on an error path", n))
 			}
+		} else if ph, isPhi := arg.(*ssa.Phi); isPhi {
+			// a status code carried in a variable: every value it can have here is an error constant, or
+			// readBody's code on readBody's error branch; "no error" (0) does not reach this call
+			okAll := true
+			why := ""
+			zeroExcluded := cmpHolds(factsAt(cl.Block()), func(v ssa.Value) bool { return v == ssa.Value(ph) }, isZero, token.NEQ)
+			for _, vc := range valueCases(ph, nil) {
+				var cf []canonCond
+				for _, cd := range vc.Conds {
+					cf = append(cf, canonOf(cd))
+				}
+				if n, isC := constInt(vc.V); isC {
+					if n == 0 && zeroExcluded {
+						continue
+					}
+					if n < 400 {
+						okAll, why = false, fmt.Sprintf("status %d", n)
+					}
+				} else if !(isRbCode(vc.V) && readFailedFacts(cf)) {
+					okAll, why = false, "status "+exprString(vc.V, 0)
+				}
+			}
+			r.Check(key+":error-status", okAll && !(readOK(cl.Block()) && unmarshalOK(cl.Block())), cl.Pos(), "a status carried in a variable is an error constant or readBody's code on its error branch "+why)
 		} else {
-			ex, ok := arg.(*ssa.Extract)
-			r.Check(key+":error-status-from-readBody", ok && ex.Tuple == rb && ex.Index == 1 && !readOK(cl.Block()), cl.Pos(), "non-constant status is readBody's error code on its error branch")
+			r.Check(key+":error-status-from-readBody", isRbCode(arg) && !readOK(cl.Block()), cl.Pos(), "non-constant status is readBody's error code on its error branch")
 		}
 	}
 	_ = w
@@ -1084,13 +1097,18 @@ func c14(c *Ctx) {
 				if cl.Common().IsInvoke() && cl.Common().Method.Name() == "Read" && strings.HasSuffix(pathOf(cl.Common().Value), ".Body") {
 					r.Check("readBody:reads-to-the-end", false, cl.Pos(), "the request body is read with a single Read call")
 				}
-				if cal := staticCallee(cl); cal != nil && cal.Name() == "ReadAll" && len(cl.Common().Args) == 1 && strings.Contains(exprString(cl.Common().Args[0], 0), ".Body") {
-					nAll++
-					r.Check("readBody:reads-to-the-end", true, cl.Pos(), "the request body is consumed by ReadAll")
+				if cal := staticCallee(cl); cal != nil && (cal.Name() == "ReadAll" || cal.Name() == "ReadFrom" || cal.Name() == "Copy") {
+					for _, a := range cl.Common().Args {
+						if strings.Contains(exprString(a, 0), ".Body") {
+							nAll++
+							r.Check("readBody:reads-to-the-end", true, cl.Pos(), "the request body is consumed to its end by "+cal.Name())
+							break
+						}
+					}
 				}
 			}
 		}
-		r.Check("readBody:read-site", nAll >= 1, rb.Pos(), fmt.Sprintf("%d ReadAll(req.Body) sites", nAll))
+		r.Check("readBody:read-site", nAll >= 1, rb.Pos(), fmt.Sprintf("%d sites reading the body to its end (ReadAll / ReadFrom / Copy)", nAll))
 		// each decompress error leads to an error return
 		for _, cl := range callsIn(rb) {
 			cal := staticCallee(cl)
